@@ -6,6 +6,7 @@ CONSTANTS
   PatchKinds = {"plain2"}
   FnLayouts = {"none"}
   EndSyms = {FALSE}
+  NoSyms = {FALSE}
   AnnModes = {"none"}
   WithProxyDel = FALSE
   CfiLayouts = {"none"}
